@@ -149,6 +149,14 @@ fn neighbours(table: &[&str]) -> Vec<String> {
             out.push("q".repeat(n));
             out.push(w.to_lowercase().repeat(n / w.len() + 2));
         }
+        // a character of every UTF-8 width before, after and inside the spelling
+        for ch in ['\u{e9}', '\u{20ac}', '\u{4e2d}', '\u{1f600}', '\u{10ffff}'] {
+            for i in 0..=c.len() {
+                let mut x = c.clone();
+                x.insert(i, ch);
+                out.push(x.iter().collect());
+            }
+        }
         // non-ASCII and embedded NUL variants
         out.push(format!("{}\u{0}", w));
         out.push(format!("{}\u{e9}", w));
@@ -561,6 +569,30 @@ pub fn run(ctx: &'static Ctx) {
             }
         });
     }
+    // sub-command numbers as the request decoder takes them, under both credential-management
+    // command bytes and for ClientPin
+    sweep(ctx, "sub-command numbers through the request decoder", 3 * 256, "commands 0x0A, 0x41 and 0x06 x every sub-command number 0..=255 in an otherwise minimal request: accepted iff listed", move |idx, l| {
+        let cmd = [0x0au8, 0x41, 0x06][(idx / 256) as usize];
+        let n = idx % 256;
+        let (wire, table): (V, &[u64]) = if cmd == 0x06 {
+            (V::M(vec![(V::U(1), V::U(1)), (V::U(2), V::U(n))]), &PIN_SUBCOMMANDS)
+        } else {
+            (V::M(vec![(V::U(1), V::U(n))]), &CM_SUBCOMMANDS)
+        };
+        let listed = table.contains(&n);
+        l.nontrivial += 1;
+        l.bump(if listed { "listed number" } else { "unlisted number" });
+        let got = decode_request(&message(cmd, &wire));
+        let ok = match &got {
+            Dec::Ok(v) => listed && v.get_t("params").and_then(|p| p.get_t("subCommand")).and_then(|s| s.as_u64()) == Some(n),
+            Dec::Err(_) => !listed,
+            Dec::Panic(_) => false,
+        };
+        if !ok {
+            let v = Verdict::fail(format!("{}|sub-command-through-decoder|0x{:02x}", P, cmd), if listed { format!("accepted as sub-command {}", n) } else { "rejected".into() }, got.show());
+            l.fail(ctx, idx, v, || json!({"kind": "subcommand-request", "cmd": cmd, "n": n}));
+        }
+    });
     sweep(ctx, "named constants", 1, "55 status codes, 6 permission bits, 21 numeric variants, 12 spellings against the specification tables; distinctness", move |idx, l| {
         l.nontrivial += 1;
         for v in check_named() {
@@ -578,6 +610,19 @@ pub fn replay(case: &Value) -> Verdict {
         Some("spelling") => {
             let (name, table) = *STRING_ENUMS.iter().find(|e| e.0 == case["enum"].as_str().unwrap()).unwrap();
             check_string(name, table, case["spelling"].as_str().unwrap())
+        }
+        Some("subcommand-request") => {
+            let cmd = case["cmd"].as_u64().unwrap() as u8;
+            let n = case["n"].as_u64().unwrap();
+            let (wire, table): (V, &[u64]) = if cmd == 0x06 { (V::M(vec![(V::U(1), V::U(1)), (V::U(2), V::U(n))]), &PIN_SUBCOMMANDS) } else { (V::M(vec![(V::U(1), V::U(n))]), &CM_SUBCOMMANDS) };
+            let listed = table.contains(&n);
+            let got = decode_request(&message(cmd, &wire));
+            let ok = match &got {
+                Dec::Ok(v) => listed && v.get_t("params").and_then(|p| p.get_t("subCommand")).and_then(|s| s.as_u64()) == Some(n),
+                Dec::Err(_) => !listed,
+                Dec::Panic(_) => false,
+            };
+            if ok { Verdict::pass() } else { Verdict::fail(format!("{}|sub-command-through-decoder|0x{:02x}", P, cmd), if listed { "accepted" } else { "rejected" }, got.show()) }
         }
         Some("control-apdu") => {
             let bytes = crate::refcbor::unhex(case["apdu"].as_str().unwrap());
